@@ -46,6 +46,7 @@ let cert_kind_of (s : string) : cert_kind option =
   match s with
   | "valid" -> Some CValid | "wrongname" -> Some CWrongName | "unknownca" -> Some CUnknownCA
   | "expired" -> Some CExpired | "selfsigned" -> Some CSelfSigned | "absent" -> None
+  | "sysroot" -> Some CSysRoot | "sysrootwrongname" -> Some CSysRootWrongName
   | _ -> failwith "tls: unknown certificate kind"
 
 let run_tls (parts : string list) : string =
@@ -61,6 +62,37 @@ let run_tls (parts : string list) : string =
     if not (tls_listener_starts o) then "start=err served=0"
     else if tls_listener_case o peer then "start=ok served=1" else "start=ok served=0"
 
+(* kind sockets: the SET of (network, address) pairs of every socket the upstream may open (ep_sockets) *)
+let run_sockets (parts : string list) : string =
+  let f = fields parts in
+  let url = hexf f "url" and da = hexf f "da" in
+  match endpoint_of url da with
+  | Ok ep ->
+    let one (nw, a) = (match nw with NUdp -> "udp" | NTcp -> "tcp" | NUnix -> "unix") ^ "/" ^ txt a in
+    let l = List.sort_uniq compare (List.map one (ep_sockets ep)) in
+    Printf.sprintf "new=ok socks=%s stray=0" (String.concat "," l)
+  | Err _ -> "new=err"
+  | Panic -> "PANIC!"
+  | OutOfFuel -> "HANG"
+
+(* kind tlscfg: makeTlsConfig field by field *)
+let run_tlscfg (parts : string list) : string =
+  let f = fields parts in
+  let b k = fld f k = "1" in
+  let o = { o_ca = b "ca"; o_cert_key = b "ck"; o_insecure = b "ins"; o_verify_client = b "vc" } in
+  let pool p = (match p with SystemRoots -> "system" | ConfiguredCA -> "configured") in
+  match tls_config_view o (b "rc") with
+  | None -> "cfg=err"
+  | Some ((((ins, roots), has_cert), auth), cas) ->
+    Printf.sprintf "cfg=ok ins=%d roots=%s cert=%d auth=%s cas=%s" (if ins then 1 else 0) (pool roots)
+      (if has_cert then 1 else 0)
+      (match auth with
+       | NoClientCert -> "none" | RequestClientCert -> "request" | RequireAnyClientCert -> "requireany"
+       | VerifyClientCertIfGiven -> "verifyifgiven" | RequireAndVerifyClientCert -> "requireandverify")
+      (match cas with None -> "none" | Some p -> pool p)
+
 let () = register "addr" run_addr
+let () = register "sockets" run_sockets
+let () = register "tlscfg" run_tlscfg
 let () = register "endpoint" run_endpoint
 let () = register "tls" run_tls
